@@ -228,11 +228,16 @@ def run(ctx):
         'their definition, nesting depth 1); AtomicSubseq is the documented non-mixing of sub-sequence backtracking, (?>...) in re',
         'StructureOnly only for patterns without source-text sub-patterns (str / regex on nodes, MRE at node level are flagged src)',
         'SearchIsFilter with nested=False uses the documented pruning (PruneNested) and on=enter only']
+    parts = os.environ.get('C17_PARTS', 'mc,quant,match').split(',')  # development aid only; the default runs everything
     cfg = 'QuantMC' if ctx.quick else 'QuantMC_thorough'
-    ctx.model('QuantMC', cfg, required=('Second', 'PickFlat', 'PickSubseq'), workers=16, heap='6g')
-    run_quant(ctx)
-    run_match(ctx)
-    ctx.require_clauses(QUANT_CLAUSES + MATCH_CLAUSES)
+    if 'mc' in parts:
+        ctx.model('QuantMC', cfg, required=('Second', 'PickFlat', 'PickSubseq'), workers=16, heap='6g')
+    if 'quant' in parts:
+        run_quant(ctx)
+        ctx.require_clauses(QUANT_CLAUSES)
+    if 'match' in parts:
+        run_match(ctx)
+        ctx.require_clauses(MATCH_CLAUSES)
     if not ctx.quick:
         ctx.exhaustive = False  # exhaustive sub-universe + samples, see coverage.quant.exhaustive
 
